@@ -4,23 +4,17 @@
      n  = number of complete slot writes before the crash ("-" = all of them: clean shutdown)
      torn = bytes of the next write that still reach the disk ("-" = none)
    prints  W <slot>:<len>,... | <result> ...   with result = M (miss) or H:<obj>:<off>:<cnt>+... (hit content) *)
-let z_of_string_dc (s : string) : z =
-  if String.length s > 0 && s.[0] = '-' then
-    (match n_of_string (String.sub s 1 (String.length s - 1)) with N0 -> Z0 | Npos p -> Zneg p)
-  else (match n_of_string s with N0 -> Z0 | Npos p -> Zpos p)
-let string_of_z_dc (x : z) : string =
-  match x with Z0 -> "0" | Zpos p -> string_of_pos p | Zneg p -> "-" ^ string_of_pos p
 let rec nat_of_int (i : int) : nat = if i <= 0 then O else S (nat_of_int (i - 1))
 let op_of (s : string) : op =
   match String.split_on_char ':' s with
   | ["S"; k0; k1; o; ver; len; mlen; ssz] ->
-    OStore ((z_of_string_dc k0, z_of_string_dc k1), z_of_string_dc o, z_of_string_dc ver, z_of_string_dc len,
-            z_of_string_dc mlen, z_of_string_dc ssz)
-  | ["P"; k0; k1] -> OPurge (z_of_string_dc k0, z_of_string_dc k1)
+    OStore ((z_of_string k0, z_of_string k1), z_of_string o, z_of_string ver, z_of_string len,
+            z_of_string mlen, z_of_string ssz)
+  | ["P"; k0; k1] -> OPurge (z_of_string k0, z_of_string k1)
   | _ -> failwith "op"
 let key_of (s : string) : z * z =
   match String.split_on_char ':' s with
-  | [k0; k1] -> (z_of_string_dc k0, z_of_string_dc k1)
+  | [k0; k1] -> (z_of_string k0, z_of_string k1)
   | _ -> failwith "key"
 let () =
   reg "dc.run" (fun (n :: p :: cn :: torn :: rest) ->
@@ -30,14 +24,14 @@ let () =
         | [] -> (List.rev acc, []) in
       let (ops, qs) = split [] rest in
       let ops = List.map op_of ops in
-      let nn = z_of_string_dc n and pp = z_of_string_dc p in
+      let nn = z_of_string n and pp = z_of_string p in
       let total = List.length (all_writes pp (sessions_of nn pp ops)) in
       let cnat = if cn = "-" then nat_of_int total else nat_of_int (int_of_string cn) in
-      let t = if torn = "-" then None else Some (z_of_string_dc torn) in
+      let t = if torn = "-" then None else Some (z_of_string torn) in
       let ((ws, nofuel), hits) = run_case nn pp ops cnat t (List.map key_of qs) in
-      let wtxt = String.concat "," (List.map (fun (s, l) -> string_of_z_dc s ^ ":" ^ string_of_z_dc l) ws) in
+      let wtxt = String.concat "," (List.map (fun (s, l) -> string_of_z s ^ ":" ^ string_of_z l) ws) in
       let htxt = String.concat " " (List.map (function
           | None -> "M"
           | Some segs -> "H:" ^ String.concat "+" (List.map (fun ((o, i), c) ->
-              string_of_z_dc o ^ ":" ^ string_of_z_dc i ^ ":" ^ string_of_z_dc c) segs)) hits) in
+              string_of_z o ^ ":" ^ string_of_z i ^ ":" ^ string_of_z c) segs)) hits) in
       (if nofuel then "NOFUEL " else "") ^ "W " ^ (if wtxt = "" then "-" else wtxt) ^ " | " ^ htxt)
